@@ -14,6 +14,7 @@ import (
 	age "github.com/craterdog/go-collection-framework/v4/agent"
 	cdc "github.com/craterdog/go-collection-framework/v4/cdcn"
 	col "github.com/craterdog/go-collection-framework/v4/collection"
+	mod "github.com/craterdog/go-collection-framework/v4"
 )
 
 type c10gen struct {
@@ -223,7 +224,64 @@ func formatObs(n col.NotationLike, v any) fmtObs {
 }
 
 func rtLine(out *Out, caseID int, v any, canon bool, extra J) {
-	n := cdc.Notation().Make()
+	rtLineWith(nil, out, caseID, v, canon, extra)
+}
+
+// negZeros counts the negative zeros among the float and complex leaves of a value (the sign of a
+// zero is part of the number: 1/x tells them apart)
+func negZeros(v any) int {
+	n := 0
+	isNZ := func(f float64) bool { return f == 0 && math.Signbit(f) }
+	var walk func(x any)
+	walk = func(x any) {
+		switch t := x.(type) {
+		case float64:
+			if isNZ(t) {
+				n++
+			}
+		case float32:
+			if isNZ(float64(t)) {
+				n++
+			}
+		case complex128:
+			if isNZ(real(t)) {
+				n++
+			}
+			if isNZ(imag(t)) {
+				n++
+			}
+		case complex64:
+			if isNZ(float64(real(t))) {
+				n++
+			}
+			if isNZ(float64(imag(t))) {
+				n++
+			}
+		case col.AssociationLike[any, any]:
+			walk(t.GetKey())
+			walk(t.GetValue())
+		case interface {
+			AsArray() []col.AssociationLike[any, any]
+		}:
+			for _, a := range t.AsArray() {
+				walk(a)
+			}
+		case interface{ AsArray() []any }:
+			for _, y := range t.AsArray() {
+				walk(y)
+			}
+		}
+	}
+	walk(v)
+	return n
+}
+
+// rtLineWith: format and parse on the given notation (nil = a fresh one for each step)
+func rtLineWith(nt col.NotationLike, out *Out, caseID int, v any, canon bool, extra J) {
+	n := nt
+	if n == nil {
+		n = cdc.Notation().Make()
+	}
 	f1 := formatObs(n, v)
 	j := J{"k": "rt", "pid": "C10", "case": caseID, "v": encVal(v), "canon": canon, "fmt": f1.kind}
 	var leaves [][2]J
@@ -242,8 +300,31 @@ func rtLine(out *Out, caseID int, v any, canon bool, extra J) {
 			}
 		}
 		j["toks"], j["conv"] = tj, conv
-		pj, v2 := parseObs(f1.text)
+		pj, v2 := parseObsWith(nt, f1.text)
 		j["parse"] = pj
+		if pj["out"] == "ret" {
+			j["nz"] = []int{negZeros(v), negZeros(v2)}
+		}
+		// the other entry points the property names: String() of the collection, module-level FormatValue / ParseSource
+		if st, ok := v.(fmt.Stringer); ok {
+			var text string
+			cr := guarded(5*time.Second, func() { text = st.String() })
+			j["str"] = J{"out": cr.kind, "text": runesOf(text)}
+		}
+		{
+			var text string
+			cr := guarded(5*time.Second, func() { text = mod.FormatValue(v) })
+			j["modfmt"] = J{"out": cr.kind, "text": runesOf(text)}
+			var v3 any
+			cr = guarded(5*time.Second, func() { v3 = mod.ParseSource(f1.text) })
+			mp := J{"out": cr.kind}
+			if cr.kind == "ret" && pj["out"] == "ret" {
+				var eq bool
+				cr2 := guarded(0, func() { eq = age.Collator[any]().Make().CompareValues(v2, v3) })
+				mp["eq"] = cr2.kind == "ret" && eq
+			}
+			j["modparse"] = mp
+		}
 		if pj["out"] == "ret" {
 			var eq bool
 			cr := guarded(0, func() { eq = age.Collator[any]().Make().CompareValues(v, v2) })
@@ -321,6 +402,38 @@ func runC10(tier string, seed int64, out *Out) {
 			rtLine(out, caseID, v, true, J{"gen": "nest", "depth": depth})
 			caseID++
 			rtLine(out, caseID, w, true, J{"gen": "nest", "depth": depth})
+		}
+	}
+	// the same collection OBJECT at several places of an acyclic value (siblings, different depths, key's value):
+	// being met twice is not being self-containing
+	for rep := 0; rep < 12; rep++ {
+		inner := g.collection(1)
+		mid := col.List[any](notation).MakeFromArray([]any{inner, int64(rep), inner})
+		cat := col.Catalog[any, any](notation).Make()
+		cat.SetValue("a", inner)
+		cat.SetValue("b", mid)
+		cat.SetValue("c", inner)
+		for _, v := range []any{
+			col.List[any](notation).MakeFromArray([]any{inner, inner}),
+			col.Array[any](notation).MakeFromArray([]any{inner, mid, inner}),
+			col.Stack[any](notation).MakeFromArray([]any{mid, mid}),
+			cat,
+			col.List[any](notation).MakeFromArray([]any{cat, inner}),
+		} {
+			caseID++
+			rtLine(out, caseID, v, true, J{"gen": "shared"})
+		}
+	}
+	// round trips on ONE notation after it rejected a document (each way a parse can be abandoned)
+	for _, bad := range []string{"[1 2](List)", "[1]", "[1](List) x", "[", "[1: ](Map)", "[bad](Array)", "[1, 2](Catalog)", "$", ""} {
+		nt := cdc.Notation().Make()
+		for i := 0; i < 3; i++ {
+			func() {
+				defer func() { recover() }()
+				nt.ParseSource(bad)
+			}()
+			caseID++
+			rtLineWith(nt, out, caseID, g.collection(1+i), true, J{"gen": "after-rejection"})
 		}
 	}
 	// call sequences on ONE notation, with failing calls in between: the text must not depend on history
